@@ -291,6 +291,22 @@ def corner_asts():
         P(O(x)), P(P(O(x))), P(P({"k": "oand", "args": [O(x), O(y)]})), {"k": "oor", "args": [P(P(O(x))), O(P(P(y)))]},
         {"k": "fb", "args": [O(x), {"k": "qual", "e": O(P(P(OR(y, z)))), "q": within}]}, {"k": "qual", "e": P(P({"k": "oand", "args": [O(x), O(y)]})), "q": within},
         {"k": "qual", "e": P({"k": "qual", "e": O(P(x)), "q": within}), "q": {"k": "repeats", "n": 2, "s": 0, "t1": I(0), "t2": I(0)}})]
+    # grouping expressed by operator precedence alone (no parentheses in the text): AND binds tighter than OR, OR tighter than FOLLOWEDBY, at both levels
+    w = c("a", "e", 4)
+
+    def OA(*a):  # noqa
+        return {"k": "oand", "args": list(a)}
+
+    def OO(*a):  # noqa
+        return {"k": "oor", "args": list(a)}
+
+    def FB(*a):  # noqa
+        return {"k": "fb", "args": list(a)}
+    out += [("precedence", g) for g in (
+        OO(OA(O(x), O(y)), O(z)), OO(O(x), OA(O(y), O(z))), FB(OA(O(x), O(y)), O(z)), FB(O(x), OA(O(y), O(z))), FB(OO(O(x), O(y)), O(z)), FB(O(x), OO(O(y), O(z))),
+        FB(OO(OA(O(x), O(y)), O(z)), O(w)), FB(O(x), OO(O(y), OA(O(z), O(w)))), OO(OA(O(x), O(y)), OA(O(z), O(w))), OO(OA(O(x), O(y), O(z)), O(w)), OO(O(x), OA(O(y), O(z)), O(w)),
+        FB(OA(O(x), O(y)), OA(O(z), O(w))), FB(O(x), O(y), OA(O(z), O(w))),
+        O(OR(AND(x, y), z)), O(OR(x, AND(y, z))), O(OR(AND(x, y), AND(z, w))), O(OR(x, AND(y, z), w)), O(OR(AND(x, y, z), w)))]
     a1, b1, c1, c2 = c("a", "x", 1), c("b", "y", 2), c("c", "z", 3), c("c", "w", 4)
     out += [("mixed_types", g) for g in (
         O(OR(a1, b1)), O(OR(a1, b1, c1)), O(AND(P(OR(a1, c1)), c2)), O(AND(P(OR(a1, b1, c1)), c2)), O(AND(c2, P(OR(a1, b1, c1)))), O(AND(P(OR(a1, P(OR(b1, c1)))), c2)),
